@@ -92,6 +92,8 @@ func runC19(p *core.Prog, r *core.Report) {
 
 	evacuationAccountsEveryObject(p, r, "C19.R2")
 	// ---------------- R4 precondition
+	r5 := r.Rule("C19.R5", "an object counts as moved only where it becomes readable: putToShard stores only after the target shard's Exists answered (false, nil) (shared with C20.R6)", 1)
+	putOnlyWhereAbsent(p, r, r5)
 	r4 := r.Rule("C19.R4", "evacuation proceeds only if every named shard is read-only", 1)
 	ro := core.G("shard-read-only", core.IsTrue, "(pkg/local_object_storage/shard/mode.Mode).ReadOnly")
 	gfr := core.Flow(ev, []core.Guard{ro})
